@@ -60,11 +60,13 @@ finding is reported at its root):
    "unknown parent not in missing_locals" are recorded as observations -- outcome signature + coverage.observations --
    and are never violations; lead triage of former finding D6)
   future-cancelled-on-kill / future-done-on-untrack / future-done-on-region-clear / future-resolved-on-answer
+  pending-future-registered    a pending future handed out by request_* is still in the region's _object_futures
 Sites name the handler of the event plus the scenario tag (or, for exceptions, the innermost library frame, exception
 type and scenario tag), so findings with different causes do not share a key.
 
 Search plan (``BOUNDS``): profile "graph" = {A, K, KM, TD, RT} only -- little auxiliary state, so the single-region
-search runs until (almost) no new state appears; profile "full" = every event, shallower because requests, properties,
+search runs until no new state appears; profile "requests" = request futures against announce / properties / kill /
+teardown with one local ID (deep); profile "full" = every event, shallower because requests, properties,
 missing locals and timers multiply the state.  Two-region searches use 2 local IDs per region.  The explorer does not
 extend a history past a violation, so states that are only reachable through a reported defect are not explored.
 
@@ -106,6 +108,9 @@ PROFILES = {
     # "full" = everything (requests, properties, terse/cached updates, debounce timer)
     "graph": {"A", "K", "KM", "TD", "RT"},
     "full": {"A", "T", "C", "P", "PF", "K", "KM", "RQ", "RP", "TD", "RT", "TICK", "Kx", "TDx"},
+    # "requests" = request futures against announce / properties / kill / teardown (+ deferred done-callbacks), run
+    # with a single local ID so that it goes deep
+    "requests": {"A", "P", "K", "Kx", "TD", "TDx", "RT", "RQ", "RP"},
 }
 
 HANDLER = {
@@ -260,6 +265,7 @@ class World:
                                                                                     or RuntimeError(ctx.get("message"))))
         self.violations: List[Dict[str, Any]] = []
         self.notes: List[str] = []                 # observations of the last step (not violations)
+        self.deferred = False                      # done-callbacks of cancelled futures have not run yet
 
 
 def _core(ev):
@@ -449,10 +455,15 @@ class Harness:
                 raise KeyError(kind)
         except Exception as e:  # an API call raised directly (message handlers never do: Event.notify swallows)
             raised.append({"site": wh.exception_site(e), "detail": f"{HANDLER[hkey]} raised {e!r}"})
-        if tag != "defer":
-            # "defer": the caller goes on (next event) before the loop gets to run the done-callbacks of the futures
-            # this event cancelled, e.g. an addon that re-requests from the code path that saw the region drop
+        if tag == "defer":
+            # the caller goes on (next event) before the loop gets to run the done-callbacks of the futures this event
+            # cancelled, e.g. code that re-opens the region and re-requests from the path that saw the region drop
+            w.deferred = True
+        elif w.deferred and kind == "RT":
+            pass                # still the same synchronous code path: the loop has not run yet
+        else:
             lw.loop.run_ready()
+            w.deferred = False
         raised.extend(lw.recorder.raised)
         for e in w.loop_excs:
             raised.append({"site": wh.exception_site(e), "detail": f"loop callback raised {e!r}"})
@@ -603,6 +614,15 @@ class Harness:
             if p not in lw.regions[r].objects.state.missing_locals:
                 w.notes.append("unknown-parent-not-in-missing_locals")
         # -- request futures
+        for x in w.futs:
+            if x["fut"].done():
+                continue
+            reg = lw.regions[x["r"]].objects.state._object_futures.get((x["l"], ObjectUpdateType(x["t"])), [])
+            if not any(f is x["fut"] for f in reg):
+                bad("pending-future-registered", f"RegionObjectsState.register_future[{ev[0]}:{tag}]",
+                    f"a pending {ObjectUpdateType(x['t']).name} future for local {x['l']} of region {x['r']} is no "
+                    f"longer registered (keys={[(k[0], int(k[1])) for k in lw.regions[x['r']].objects.state._object_futures]}): "
+                    f"nothing can resolve or cancel it any more")
         for r, l, clause in exp.get("must_done", ()):
             st = lw.regions[r].objects.state
             left = [(k[0], ObjectUpdateType(k[1]).name) for k, futs in st._object_futures.items()
@@ -707,7 +727,7 @@ class Harness:
         parts.append(tuple(sorted((str(k), a.RegionHandle, a.Object is not None) for k, a in so._avatars.items())))
         parts.append(tuple(sorted((x["r"], x["l"], x["t"]) for x in w.futs if not x["fut"].done())))
         parts.append(lw.loop.pending_timers())
-        parts.append(len(lw.loop._ready))
+        parts.append((len(lw.loop._ready), w.deferred))
         return tuple(parts)
 
     def nontrivial(self, w: World, hist):
@@ -811,9 +831,10 @@ def _observations():
 
 BOUNDS = {
     # tier: [(profile, regions, locals per region, depth, deviation bound)]
-    "quick": [("graph", 1, 3, 5, 2), ("graph", 2, 2, 4, 2), ("full", 1, 3, 3, 2), ("full", 2, 2, 3, 2)],
+    "quick": [("graph", 1, 3, 5, 2), ("graph", 2, 2, 4, 2), ("full", 1, 3, 3, 2), ("full", 2, 2, 3, 2),
+              ("requests", 1, 1, 8, 3), ("requests", 1, 2, 4, 2)],
     "thorough": [("graph", 1, 3, 14, 3), ("graph", 2, 2, 6, 3), ("full", 1, 3, 4, 3), ("full", 1, 2, 5, 2),
-                 ("full", 2, 2, 4, 2)],
+                 ("full", 2, 2, 4, 2), ("requests", 1, 1, 10, 3), ("requests", 1, 2, 5, 2)],
 }
 
 
